@@ -112,18 +112,44 @@ def publishVerdicts (pre : Server) (io : ImplOut) (origin topic payload : Str) (
       if excused then [] else
         [fail "C03" (if nolocalMix cid then "F03" else "-")
           s!"connected client on c{c.conn} holds a matching authorised subscription but received nothing"]
-  -- C06: each share group with a matching member: exactly one member receives (group = share name)
+  -- C06: each share group with a matching member: exactly one member receives (group = share name).
+  -- Receivers that are not entitled through a non-shared subscription must be assignable to DISTINCT groups they
+  -- belong to (a member of two matching groups may be the choice of either); a group all of whose members are
+  -- connected, authorised and not flow-limited must have a receiver.
   let groups := (ents.filterMap fun (_, _, g) => g).eraseDups
-  let c06 := if !accepted || blockedByHook.isSome then [] else groups.flatMap fun g =>
-    let allMembers := (ents.filter fun (_, _, gg) => gg == some g).map (·.1) |>.eraseDups
-    let members := allMembers.filter fun c => (liveConnOf pre c).isSome && aclOk pre c topic false
-    -- members that received and are NOT entitled through a non-shared subscription
-    let got := members.filter fun c =>
-      !entitledNonShared c && match liveConnOf pre c with | some n => recv.any (·.1 == n) | none => false
-    let twoFilters := ((ents.filter fun (_, _, gg) => gg == some g).map fun (_, sub, _) => sub.filter).eraseDups.length > 1
-    if got.length > 1 then
-      [fail "C06" (if twoFilters then "F06" else "-") s!"{got.length} members of share group {hexOfStr g} received one publish"]
-    else []
+  let c06 := if !accepted || blockedByHook.isSome then [] else
+    let liveAuth (c : Str) : Bool := (liveConnOf pre c).isSome && aclOk pre c topic false
+    let receivedC (c : Str) : Bool := match liveConnOf pre c with | some n => recv.any (·.1 == n) | none => false
+    let groupsOf (c : Str) : List Str := (ents.filterMap fun (cid, _, g) => if cid == c then g else none).eraseDups
+    let entriesOf (c : Str) : List (Str × Str) :=
+      (ents.filterMap fun (cid, sub, g) => match g with | some gg => if cid == c then some (gg, sub.filter) else none | none => none).eraseDups
+    let sharedRecv := ((ents.filterMap fun (cid, _, g) => if g.isSome then some cid else none).eraseDups).filter fun c =>
+      liveAuth c && !entitledNonShared c && receivedC c
+    -- injective assignment of receivers to the keys they may have been chosen for (at most three receivers here)
+    let rec assign {α : Type} [BEq α] (opts : List (List α)) (used : List α) (fuel : Nat) : Bool :=
+      match fuel, opts with
+      | _, [] => true
+      | 0, _ => false
+      | fuel + 1, o :: rest => o.any fun k => !used.contains k && assign rest (k :: used) fuel
+    let okGroups := assign (sharedRecv.map groupsOf) [] (sharedRecv.length + 1)
+    let okEntries := assign (sharedRecv.map entriesOf) [] (sharedRecv.length + 1)
+    let over := if okGroups then [] else
+      [fail "C06" (if okEntries then "F06" else "-")
+        s!"{sharedRecv.length} share-group members received one publish that matches {groups.length} group(s): some group delivered to more than one member"]
+    let under := groups.flatMap fun g =>
+      let members := (ents.filterMap fun (cid, _, gg) => if gg == some g then some cid else none).eraseDups
+      let flowLimited := members.any fun c => match assocGet pre.clients c with
+        | some i => let o := getObj pre i; o.maxSend > 0 || o.peerGone
+        | none => true
+      let limited := pubQos > 0 && (flowLimited || pre.caps.maximumInflight < 8192 || pre.caps.maximumPacketID < 65535)
+      -- a member that is the publisher itself under No Local may be the (silent) choice
+      -- (No Local is ORed over all of a client's matching subscriptions when they are merged: F03's domain)
+      let selfNoLocal := members.contains origin && ents.any fun (cid, sub, _) => cid == origin && sub.noLocal
+      if members.all liveAuth && !limited && !selfNoLocal && !(members.any receivedC) &&
+          !(members.any fun c => match liveConnOf pre c with | some n => io.closed.contains n || gone.contains n | none => true) then
+        [fail "C06" "-" s!"share group {hexOfStr g}: all {members.length} member(s) are connected and authorised but none received the publish"]
+      else []
+    over ++ under
   dupes.eraseDups ++ perRecv ++ missing ++ c06
 
 /-- the spec verdicts for one broker op; `pre` = state before the op -/
